@@ -54,8 +54,8 @@ theorem run_events_on (S : VSchema) (d : Doc) (G : Stack → Sel → Prop) (out 
     (fout : FragDef → List Model.Validate.Kind) (oout : OpDef → List Model.Validate.Kind)
     (hpre : ∀ s st sel, G st sel → M.run s (preEvents S st sel) = out st sel)
     (hpost : ∀ s st sel, M.run s (postEvents S st sel) = [])
-    (hfpre : ∀ s f, M.run s (fragPre S f) = fout f) (hfpost : ∀ s f, M.run s (fragPost S f) = [])
-    (hopre : ∀ s o, M.run s (opPre S o) = oout o) (hopost : ∀ s o, M.run s (opPost S o) = [])
+    (hfpre : ∀ s, ∀ f ∈ d.frags, M.run s (fragPre S f) = fout f) (hfpost : ∀ s f, M.run s (fragPost S f) = [])
+    (hopre : ∀ s, ∀ o ∈ d.ops, M.run s (opPre S o) = oout o) (hopost : ∀ s o, M.run s (opPost S o) = [])
     (hdoc : ∀ s, (M.step s (Model.Validate.mk [] .enterDoc)).2 = [] ∧ (M.step s (Model.Validate.mk [] .exitDoc)).2 = [])
     (hG : ∀ v ∈ docVisits S d, G v.1 v.2) (s : σ) :
     M.run s (events S {} d) =
@@ -63,7 +63,7 @@ theorem run_events_on (S : VSchema) (d : Doc) (G : Stack → Sel → Prop) (out 
       ++ d.ops.flatMap (fun o => oout o ++ (opVisits S o).flatMap (fun v => out v.1 v.2)) := by
   have hf : ∀ s, ∀ f ∈ d.frags, M.run s (walkFrag S {} f) = fout f ++ (visitsSels S (fragSt S f) f.sels).flatMap (fun v => out v.1 v.2) := by
     intro s f hfm
-    rw [walkFrag_eq, run_append, run_append, hfpre, hfpost,
+    rw [walkFrag_eq, run_append, run_append, hfpre _ f hfm, hfpost,
       run_walkSels_on M S G out hpre hpost _ _ _ (fun v hv => hG v (by
         simp only [docVisits, List.mem_append, List.mem_flatMap]; exact Or.inl ⟨f, hfm, hv⟩))]
     simp
@@ -71,7 +71,7 @@ theorem run_events_on (S : VSchema) (d : Doc) (G : Stack → Sel → Prop) (out 
     intro s o hom
     have hGo : ∀ v ∈ opVisits S o, G v.1 v.2 := fun v hv => hG v (by
       simp only [docVisits, List.mem_append, List.mem_flatMap]; exact Or.inr ⟨o, hom, hv⟩)
-    rw [walkOp_eq, run_append, run_append, hopre, hopost]
+    rw [walkOp_eq, run_append, run_append, hopre _ o hom, hopost]
     have : M.run (M.final s (opPre S o)) (opWalk S o) = (opVisits S o).flatMap (fun v => out v.1 v.2) := by
       unfold opWalk
       unfold opVisits at hGo ⊢
